@@ -24,6 +24,12 @@ import (
 //verif:replace flag.BoolVar verifBoolVar
 //verif:replace flag.Var verifVar
 //verif:replace flag.Parse verifParse
+//verif:replace (github.com/EdgeCast/vflow/vflow.Options).vFlowIsRunning verifNotRunning
+//verif:replace (github.com/EdgeCast/vflow/vflow.Options).vFlowPIDWrite verifNoPIDWrite
+
+// start-up steps of GetOptions that touch the process table and the PID file: not the subject
+func verifNotRunning(o Options) bool { return false }
+func verifNoPIDWrite(o Options)      {}
 
 type verifKey struct {
 	yaml, flag string // key in the configuration file (and, upper-cased, in VFLOW_<KEY>) / flag name
@@ -31,30 +37,54 @@ type verifKey struct {
 	ptr        func(o *Options) interface{}
 }
 
-// the documented keys (docs/config.md) and the setting each one controls
+// every integer, string and boolean setting that has both a configuration-file key and a flag
+// (generated from the Options declaration and flagSet; log-file is left out because a non-empty
+// value makes GetOptions open that file, the list-valued sflow-type-filter because it is appended to)
 var verifKeys = []verifKey{
-	{"ipfix-port", "ipfix-port", 0, func(o *Options) interface{} { return &o.IPFIXPort }},
-	{"sflow-port", "sflow-port", 0, func(o *Options) interface{} { return &o.SFlowPort }},
-	{"netflow5-port", "netflow5-port", 0, func(o *Options) interface{} { return &o.NetflowV5Port }},
-	{"netflow9-port", "netflow9-port", 0, func(o *Options) interface{} { return &o.NetflowV9Port }},
-	{"ipfix-workers", "ipfix-workers", 0, func(o *Options) interface{} { return &o.IPFIXWorkers }},
-	{"sflow-workers", "sflow-workers", 0, func(o *Options) interface{} { return &o.SFlowWorkers }},
-	{"netflow5-workers", "netflow5-workers", 0, func(o *Options) interface{} { return &o.NetflowV5Workers }},
-	{"netflow9-workers", "netflow9-workers", 0, func(o *Options) interface{} { return &o.NetflowV9Workers }},
-	{"ipfix-udp-size", "ipfix-max-udp-size", 0, func(o *Options) interface{} { return &o.IPFIXUDPSize }},
-	{"sflow-udp-size", "sflow-max-udp-size", 0, func(o *Options) interface{} { return &o.SFlowUDPSize }},
-	{"ipfix-enabled", "ipfix-enabled", 2, func(o *Options) interface{} { return &o.IPFIXEnabled }},
-	{"sflow-enabled", "sflow-enabled", 2, func(o *Options) interface{} { return &o.SFlowEnabled }},
-	{"netflow5-enabled", "netflow5-enabled", 2, func(o *Options) interface{} { return &o.NetflowV5Enabled }},
-	{"netflow9-enabled", "netflow9-enabled", 2, func(o *Options) interface{} { return &o.NetflowV9Enabled }},
-	{"stats-enabled", "stats-enabled", 2, func(o *Options) interface{} { return &o.StatsEnabled }},
 	{"verbose", "verbose", 2, func(o *Options) interface{} { return &o.Verbose }},
+	{"pid-file", "pid-file", 1, func(o *Options) interface{} { return &o.PIDFile }},
+	{"cpu-cap", "cpu-cap", 1, func(o *Options) interface{} { return &o.CPUCap }},
+	{"dynamic-workers", "dynamic-workers", 2, func(o *Options) interface{} { return &o.DynWorkers }},
+	{"stats-enabled", "stats-enabled", 2, func(o *Options) interface{} { return &o.StatsEnabled }},
+	{"stats-format", "stats-format", 1, func(o *Options) interface{} { return &o.StatsFormat }},
 	{"stats-http-addr", "stats-http-addr", 1, func(o *Options) interface{} { return &o.StatsHTTPAddr }},
 	{"stats-http-port", "stats-http-port", 1, func(o *Options) interface{} { return &o.StatsHTTPPort }},
-	{"ipfix-tpl-cache-file", "ipfix-tpl-cache-file", 1, func(o *Options) interface{} { return &o.IPFIXTplCacheFile }},
-	{"netflow9-tpl-cache-file", "netflow9-tpl-cache-file", 1, func(o *Options) interface{} { return &o.NetflowV9TplCacheFile }},
+	{"sflow-enabled", "sflow-enabled", 2, func(o *Options) interface{} { return &o.SFlowEnabled }},
+	{"sflow-port", "sflow-port", 0, func(o *Options) interface{} { return &o.SFlowPort }},
+	{"sflow-addr", "sflow-addr", 1, func(o *Options) interface{} { return &o.SFlowAddr }},
+	{"sflow-udp-size", "sflow-max-udp-size", 0, func(o *Options) interface{} { return &o.SFlowUDPSize }},
+	{"sflow-workers", "sflow-workers", 0, func(o *Options) interface{} { return &o.SFlowWorkers }},
+	{"sflow-topic", "sflow-topic", 1, func(o *Options) interface{} { return &o.SFlowTopic }},
+	{"sflow-mirror-addr", "sflow-mirror-addr", 1, func(o *Options) interface{} { return &o.SFlowMirrorAddr }},
+	{"sflow-mirror-port", "sflow-mirror-port", 0, func(o *Options) interface{} { return &o.SFlowMirrorPort }},
+	{"sflow-mirror-workers", "sflow-mirror-workers", 0, func(o *Options) interface{} { return &o.SFlowMirrorWorkers }},
+	{"ipfix-enabled", "ipfix-enabled", 2, func(o *Options) interface{} { return &o.IPFIXEnabled }},
+	{"ipfix-rpc-enabled", "ipfix-rpc-enabled", 2, func(o *Options) interface{} { return &o.IPFIXRPCEnabled }},
+	{"ipfix-port", "ipfix-port", 0, func(o *Options) interface{} { return &o.IPFIXPort }},
+	{"ipfix-addr", "ipfix-addr", 1, func(o *Options) interface{} { return &o.IPFIXAddr }},
+	{"ipfix-udp-size", "ipfix-max-udp-size", 0, func(o *Options) interface{} { return &o.IPFIXUDPSize }},
+	{"ipfix-workers", "ipfix-workers", 0, func(o *Options) interface{} { return &o.IPFIXWorkers }},
 	{"ipfix-topic", "ipfix-topic", 1, func(o *Options) interface{} { return &o.IPFIXTopic }},
+	{"ipfix-mirror-addr", "ipfix-mirror-addr", 1, func(o *Options) interface{} { return &o.IPFIXMirrorAddr }},
+	{"ipfix-mirror-port", "ipfix-mirror-port", 0, func(o *Options) interface{} { return &o.IPFIXMirrorPort }},
+	{"ipfix-mirror-workers", "ipfix-mirror-workers", 0, func(o *Options) interface{} { return &o.IPFIXMirrorWorkers }},
+	{"ipfix-tpl-cache-file", "ipfix-tpl-cache-file", 1, func(o *Options) interface{} { return &o.IPFIXTplCacheFile }},
+	{"netflow5-enabled", "netflow5-enabled", 2, func(o *Options) interface{} { return &o.NetflowV5Enabled }},
+	{"netflow5-port", "netflow5-port", 0, func(o *Options) interface{} { return &o.NetflowV5Port }},
+	{"netflow5-addr", "netflow5-addr", 1, func(o *Options) interface{} { return &o.NetflowV5Addr }},
+	{"netflow5-udp-size", "netflow5-max-udp-size", 0, func(o *Options) interface{} { return &o.NetflowV5UDPSize }},
+	{"netflow5-workers", "netflow5-workers", 0, func(o *Options) interface{} { return &o.NetflowV5Workers }},
+	{"netflow5-topic", "netflow5-topic", 1, func(o *Options) interface{} { return &o.NetflowV5Topic }},
+	{"netflow9-enabled", "netflow9-enabled", 2, func(o *Options) interface{} { return &o.NetflowV9Enabled }},
+	{"netflow9-port", "netflow9-port", 0, func(o *Options) interface{} { return &o.NetflowV9Port }},
+	{"netflow9-addr", "netflow9-addr", 1, func(o *Options) interface{} { return &o.NetflowV9Addr }},
+	{"netflow9-udp-size", "netflow9-max-udp-size", 0, func(o *Options) interface{} { return &o.NetflowV9UDPSize }},
+	{"netflow9-workers", "netflow9-workers", 0, func(o *Options) interface{} { return &o.NetflowV9Workers }},
+	{"netflow9-topic", "netflow9-topic", 1, func(o *Options) interface{} { return &o.NetflowV9Topic }},
+	{"netflow9-tpl-cache-file", "netflow9-tpl-cache-file", 1, func(o *Options) interface{} { return &o.NetflowV9TplCacheFile }},
+	{"producer-enabled", "producer-enabled", 2, func(o *Options) interface{} { return &o.ProducerEnabled }},
 	{"mq-name", "mqueue", 1, func(o *Options) interface{} { return &o.MQName }},
+	{"mq-config-file", "mqueue-conf", 1, func(o *Options) interface{} { return &o.MQConfigFile }},
 }
 
 var (
@@ -65,6 +95,7 @@ var (
 	verifFileInt, verifCmdInt      int
 	verifFileBool, verifCmdBool    bool
 	verifFlags                     map[string]interface{}
+	verifFileStr, verifCmdStr      string   // string values from file / command line (may be empty)
 	verifCfgPath                   string   // when set: the only configuration file that exists
 	verifCfgRead                   []string // the names ReadFile was asked for
 )
@@ -98,7 +129,7 @@ func verifYAML(in []byte, out interface{}) error {
 	case *int:
 		*p = verifFileInt
 	case *string:
-		*p = "from-file"
+		*p = verifFileStr
 	case *bool:
 		*p = verifFileBool
 	}
@@ -119,7 +150,7 @@ func verifParse() {
 	case *int:
 		*p = verifCmdInt
 	case *string:
-		*p = "from-cmd"
+		*p = verifCmdStr
 	case *bool:
 		*p = verifCmdBool
 	default:
@@ -146,9 +177,18 @@ func VerifOptionsPrecedence() {
 			verifEnvStr = "true"
 		}
 	}
+	// a string value a source provides may also be the empty string (e.g. a cache file switched off)
+	verifFileStr, verifCmdStr = "from-file", "from-cmd"
+	if verifK.kind == 1 {
+		if verifCase(2) == 1 {
+			verifFileStr = ""
+		}
+		if verifCase(2) == 1 {
+			verifCmdStr = ""
+		}
+	}
 	def := NewOptions()
-	o := NewOptions()
-	o.flagSet()
+	o := GetOptions() // the collector's entry point: NewOptions, flagSet and the start-up steps after them
 	switch p := verifK.ptr(o).(type) {
 	case *int:
 		want := *(verifK.ptr(def).(*int))
@@ -168,10 +208,10 @@ func VerifOptionsPrecedence() {
 			want = "from-env"
 		}
 		if verifFileGiven {
-			want = "from-file"
+			want = verifFileStr
 		}
 		if verifCmdGiven {
-			want = "from-cmd"
+			want = verifCmdStr
 		}
 		verifAssert(*p == want, "string setting: command line, else file, else environment, else default")
 	case *bool:
@@ -194,11 +234,12 @@ func VerifOptionsPrecedence() {
 // line, and the default location otherwise; its values then take their documented place (here:
 // above the environment, for an integer, a string and a boolean key).
 func VerifOptionsConfigArg() {
-	verifK = verifKeys[[3]int{0, 17, 10}[verifCase(3)]]
+	verifK = verifKeys[[3]int{19, 7, 17}[verifCase(3)]]
 	verifEnvGiven, verifFileGiven, verifCmdGiven = true, true, false
 	verifFlags = map[string]interface{}{}
 	verifFileInt, verifFileBool = verifNondetInt(), verifNondetBool()
 	verifEnvStr = [3]string{"4242", "from-env", "true"}[verifK.kind]
+	verifFileStr, verifCmdStr = "from-file", "from-cmd"
 	verifCfgRead = nil
 	want := "/srv/vflow/my.conf"
 	switch verifSplit(5) {
